@@ -534,3 +534,59 @@ theorem renderRoot_calls_of_traced (c : RCtx) (root : List Node) (env : Env) (op
   | unmodelled w =>
     rw [tracedAtL_blockBody_other c root env ops _ h (by intro _ h; cases h) {}]
     simp [EOut.withTw, rootCalls]
+
+/-! ## a tree without hyphens has none inside a capture -/
+
+mutual
+theorem capTrimFreeNode_of_noTrim : ∀ n : Node, hasTrimNode n = false → capTrimFreeNode n = true
+  | .text _ _, _ => rfl
+  | .obj _ _, _ => rfl
+  | .raw _, _ => rfl
+  | .trim _, _ => rfl
+  | .assign _ _ _, _ => rfl
+  | .capture _ _ body, h => by simp only [hasTrimNode] at h; simp [capTrimFreeNode, h]
+  | .ifB _ bs, h => by
+    simp only [hasTrimNode] at h; simp only [capTrimFreeNode]; exact capTrimFreeBranches_of_noTrim bs h
+  | .caseB _ _ cs, h => by
+    simp only [hasTrimNode] at h; simp only [capTrimFreeNode]; exact capTrimFreeCases_of_noTrim cs h
+  | .loop _ _ _ _ _ body cls, h => by
+    simp only [hasTrimNode, Bool.or_eq_false_iff] at h
+    simp only [capTrimFreeNode, Bool.and_eq_true]
+    exact ⟨capTrimFree_of_noTrim body h.1, capTrimFreeClauses_of_noTrim cls h.2⟩
+  | .cycle _ _ _ _, _ => rfl
+  | .brk _, _ => rfl
+  | .cont _, _ => rfl
+  | .incl _ _, _ => rfl
+theorem capTrimFree_of_noTrim : ∀ ns : List Node, hasTrim ns = false → capTrimFree ns = true
+  | [], _ => rfl
+  | n :: ns, h => by
+    simp only [hasTrim, Bool.or_eq_false_iff] at h
+    simp only [capTrimFree, Bool.and_eq_true]
+    exact ⟨capTrimFreeNode_of_noTrim n h.1, capTrimFree_of_noTrim ns h.2⟩
+theorem capTrimFreeBranches_of_noTrim : ∀ bs : List (CondT × List Node), hasTrimBranches bs = false →
+    capTrimFreeBranches bs = true
+  | [], _ => rfl
+  | (_, body) :: rest, h => by
+    simp only [hasTrimBranches, Bool.or_eq_false_iff] at h
+    simp only [capTrimFreeBranches, Bool.and_eq_true]
+    exact ⟨capTrimFree_of_noTrim body h.1, capTrimFreeBranches_of_noTrim rest h.2⟩
+theorem capTrimFreeCases_of_noTrim : ∀ cs : List (Option (Nat × List Expr) × List Node), hasTrimCases cs = false →
+    capTrimFreeCases cs = true
+  | [], _ => rfl
+  | (_, body) :: rest, h => by
+    simp only [hasTrimCases, Bool.or_eq_false_iff] at h
+    simp only [capTrimFreeCases, Bool.and_eq_true]
+    exact ⟨capTrimFree_of_noTrim body h.1, capTrimFreeCases_of_noTrim rest h.2⟩
+theorem capTrimFreeClauses_of_noTrim : ∀ cls : List (List Node), hasTrimClauses cls = false → capTrimFreeClauses cls = true
+  | [], _ => rfl
+  | body :: rest, h => by
+    simp only [hasTrimClauses, Bool.or_eq_false_iff] at h
+    simp only [capTrimFreeClauses, Bool.and_eq_true]
+    exact ⟨capTrimFree_of_noTrim body h.1, capTrimFreeClauses_of_noTrim rest h.2⟩
+end
+
+theorem eraseTrims_idem (ops : List WOp) : eraseTrims (eraseTrims ops) = eraseTrims ops := by
+  simp [eraseTrims, List.filter_filter]
+
+/-- every chunk admitted: the calculus then speaks about the operations only -/
+theorem ctxChunks_true (c : RCtx) : CtxChunks (fun _ => True) c := ⟨fun _ _ _ _ _ => trivial, fun _ _ _ _ _ => trivial, fun _ _ => trivial⟩
